@@ -62,8 +62,10 @@ def selectors(draw, n, allow_list=True):
 
 @st.composite
 def cases(draw, tier='quick'):
+    # a declared fill value of 0 (counts, flags) is legitimate: the mask is
+    # explicit, the fill only an attribute
     fs = draw(S.filespecs(max_len=5, max_dims=5, max_vars=5, attrs=True,
-                          masked=True))
+                          masked=True, fills=[-999, -9999, -1, 99, 0, 0]))
     names = [d[0] for d in fs['dims']]
     dlen = {d[0]: d[1] for d in fs['dims']}
     if draw(st.integers(0, 3)) == 0:
@@ -206,14 +208,20 @@ def cases_strform(draw, tier='quick'):
     fs = dict(dims=[[n, l, False] for n, l in zip(names, lens)],
               vars=variables, gattrs={'title': 'strform'})
     n = dlen[base]
-    form = draw(st.sampled_from(['idx', 'range', 'stride']))
+    form = draw(st.sampled_from(['idx', 'range', 'stride', 'stride',
+                                 'general']))
     a = draw(st.integers(0, n - 1))
     if form == 'idx':
         parts = [a]
     elif form == 'range':
         parts = [a, draw(st.integers(a + 1, n))]
-    else:
+    elif form == 'stride':
         parts = [a, draw(st.integers(a + 1, n)), draw(st.integers(1, 3))]
+    else:
+        # any start/stop/stride a slice accepts, 'None' spelled out
+        b = st.one_of(st.none(), st.integers(-n - 1, n + 1))
+        parts = [draw(b), draw(b),
+                 draw(st.sampled_from([-1, -1, -2, -3, 1, 2, None]))]
     return dict(strform=fs, dim=base, parts=parts)
 
 
